@@ -864,6 +864,12 @@ class Evaluator:
                                     val = ("neg", v.operand.value)
                                 elif isinstance(v, ast.Constant):
                                     val = ("lit", v.value)
+                                elif isinstance(v, ast.Tuple) and v.elts and all(
+                                        (isinstance(x, ast.Constant) and isinstance(x.value, (str, int, float)) and
+                                         not isinstance(x.value, bool)) or
+                                        (isinstance(x, ast.Name) and x.id != name and self._module_constant(mod, x.id) is not None)
+                                        for x in v.elts):
+                                    val = ("tuple", v)       # an immutable table of literals / named literals
             # rebinding anywhere else (global statements, loops / ifs at module level) disqualifies the name
             for n in ast.walk(mod.tree):
                 if isinstance(n, ast.Global) and name in n.names:
@@ -877,6 +883,11 @@ class Evaluator:
         if val is None:
             return None
         kind, x = val
+        if kind == "tuple":
+            if not self.exact:
+                return None
+            return self.ctx.mk(("tuple",), [self._module_constant(mod, e.id) if isinstance(e, ast.Name) else self._t(e, None, None)
+                                            for e in x.elts])
         if isinstance(x, bool) or x is None:
             return self.ctx.mk(("const", x))
         if isinstance(x, str):
@@ -1300,11 +1311,17 @@ class Evaluator:
         # a comprehension whose first loop runs over a short literal tuple/list is the concatenation of one comprehension per
         # element:  [f(x, i) for x in (a, b) for i in g(x)]  ==  [f(a, i) for i in g(a)] + [f(b, i) for i in g(b)]
         g0 = e.generators[0]
-        if isinstance(e, (ast.ListComp, ast.GeneratorExp)) and isinstance(g0.iter, (ast.Tuple, ast.List)) and not g0.ifs \
-                and isinstance(g0.target, ast.Name) and 1 <= len(g0.iter.elts) <= 4 \
-                and not any(isinstance(x, ast.Starred) for x in g0.iter.elts) and not getattr(g0, "is_async", 0):
+        lit = g0.iter.elts if isinstance(g0.iter, (ast.Tuple, ast.List)) else None
+        if isinstance(g0.iter, ast.Call) and isinstance(g0.iter.func, ast.Name) and g0.iter.func.id == "range" \
+                and len(g0.iter.args) == 1 and not g0.iter.keywords and isinstance(g0.iter.args[0], ast.Constant) \
+                and type(g0.iter.args[0].value) is int and 1 <= g0.iter.args[0].value <= 4 and self.exact:
+            # range(3) with a literal bound is the tuple (0, 1, 2)
+            lit = [ast.copy_location(ast.Constant(i), g0.iter) for i in range(g0.iter.args[0].value)]
+        if isinstance(e, (ast.ListComp, ast.GeneratorExp)) and lit is not None and not g0.ifs \
+                and isinstance(g0.target, ast.Name) and 1 <= len(lit) <= 4 \
+                and not any(isinstance(x, ast.Starred) for x in lit) and not getattr(g0, "is_async", 0):
             parts = []
-            for el in g0.iter.elts:
+            for el in lit:
                 sub = self.with_bound({g0.target.id: self._t(el, at, R)})
                 if len(e.generators) == 1:
                     parts.append(sub._t(e.elt, at, R))
@@ -1912,6 +1929,9 @@ class Evaluator:
             h0 = c.head_of(pos[0])
             if h0 and h0[0] in ("tuple", "list", "set") and not c.args_of(pos[0]):
                 return c.mk((("set" if fname == "set" else "tuple" if fname == "tuple" else "list"),), [])   # set([]) is empty
+            if fname in ("list", "tuple") and h0 and h0[0] in ("tuple", "list") and len(h0) == 1 and \
+                    not any((c.head_of(x) or ("",))[0] == "star" for x in c.args_of(pos[0])):
+                return c.mk((fname,), list(c.args_of(pos[0])))      # list((a, b)) is [a, b]
         if fname == "len" and len(pos) == 1 and not star and not kws and self.exact and \
                 (c.head_of(pos[0]) or ("",))[0] == "seqcomp":
             pos = [self._loop_base(pos[0])]
@@ -1995,8 +2015,30 @@ class Evaluator:
                 return pos[0]
             return c.mk(("call", "astype", 2, ()), (pos[0], dt))
         pos, kws = self._canon_args(self.EXT_SIGS.get(fname), pos, kws, star)
+        if self.exact and fname in self.EXT_DEFAULTS and not star:
+            # a keyword spelled out with its documented default is the call without it (np.isclose(x, 0, atol=1e-8))
+            kws = [(k, v_) for k, v_ in kws if not (k in self.EXT_DEFAULTS[fname] and
+                                                   v_.key() == self._default_term(self.EXT_DEFAULTS[fname][k]).key())]
         kws = sorted(kws, key=lambda kv: kv[0])
         return c.mk(("call", fname, len(pos), tuple(k for k, _ in kws)), pos + [v for _, v in kws])
+
+    # documented defaults of library functions (numpy reference): trusted facts, listed in DESIGN.md
+    EXT_DEFAULTS = {
+        "np.isclose": {"rtol": "1e-05", "atol": "1e-08", "equal_nan": "False"},
+        "np.allclose": {"rtol": "1e-05", "atol": "1e-08", "equal_nan": "False"},
+        "np.stack": {"axis": "0"}, "np.concatenate": {"axis": "0"},
+        "np.sum": {"axis": "None"}, "np.mean": {"axis": "None"}, "np.prod": {"axis": "None"}, "np.max": {"axis": "None"},
+        "np.min": {"axis": "None"}, "np.any": {"axis": "None"}, "np.all": {"axis": "None"},
+        "np.rot90": {"k": "1", "axes": "(0, 1)"}, "np.linspace": {"endpoint": "True"}, "np.diff": {"n": "1", "axis": "-1"},
+        "np.roll": {"axis": "None"}, "np.flip": {"axis": "None"}, "np.squeeze": {"axis": "None"},
+        "np.transpose": {"axes": "None"},
+    }
+
+    def _default_term(self, text):
+        cache = self.__dict__.setdefault("_default_terms", {})
+        if text not in cache:
+            cache[text] = self.term(ast.parse(text, mode="eval").body)
+        return cache[text]
 
     def _is_float_dtype(self, dt):
         h = self.ctx.head_of(dt)
